@@ -1009,3 +1009,20 @@ def is_npf(m):
 
 def is_disconnect(m, code=None):
     return m[:1] == b"\x01" and (code is None or m[1:5] == code.to_bytes(4, "big"))
+
+
+def pk_step(gen, sid, user, key, algo, attached, res, sigkind="valid"):
+    """a publickey USERAUTH_REQUEST for exactly this (user, key, algorithm), application answer `res` for THIS call"""
+    body = S(attached, algo.encode(), key.asbytes())
+    tok = ["key=" + hx(key.asbytes())]
+    meta = {"kind": "auth", "user": user, "service": b"ssh-connection", "method": b"publickey", "algo": algo,
+            "attached": attached, "key_ok": True, "sigkind": None}
+    if attached:
+        f_sid = sid if sigkind == "valid" else bytes(32)
+        blob = session_blob(f_sid, user, b"ssh-connection", algo.encode(), key.asbytes())
+        sig = key.sign_ssh_data(blob, algo).asbytes()
+        body += S(sig)
+        tok += ["signed=" + hx(blob), "sigok=1"]
+        meta.update(sigkind=sigkind, sig_valid=(sigkind == "valid"))
+    payload = S(user, b"ssh-connection", b"publickey") + body
+    return mk_step(gen, 50, payload, {"r_pubkey": res}, tok, meta)
